@@ -49,8 +49,10 @@ def _c08(tier, seed):
         runs.append("H_C08_roundtrip(%d,%d,0,3)" % (v, 2 if q else 3))
         runs.append("H_C08_roundtrip(%d,2,125,128)" % v)
         runs.append("H_C08_readframe(%d,%d)" % (v, 6 if q else 12))
+    # boundaries of the length bytes: 2^8, 2^16 words (concrete zero payload with symbolic first/last byte)
+    runs += ["H_C08_bigframe(0,255,257)", "H_C08_bigframe(1,255,257)", "H_C08_bigframe(0,65535,65537)", "H_C08_bigframe(1,65535,65537)"]
     if not q:
-        runs += ["H_C08_write(0,16383,16384)", "H_C08_write(1,16383,16384)"]
+        runs += ["H_C08_write(0,16383,16384)", "H_C08_write(1,16383,16384)", "H_C08_bigframe(0,1048575,1048577)", "H_C08_bigframe(1,16383,16385)"]
     runs += ["H_C08_detect(%d)" % n for n in (0, 1, 2, 3, 4, 5)]
     return [
         dict(name="mode", pkg="internal/mode", harness=["harness/mode/c08.go"], runs=runs, solver="z3",
@@ -63,7 +65,7 @@ def _c08(tier, seed):
 def _c17(tier, seed):
     q = tier == "quick"
     sig = 4 if q else 7
-    runs = ["H_C17_table(%d,%d)" % (r, sig) for r in range(15)] + ["H_C17_arbitrary(%d)" % (12 if q else 20), "H_C17_catalogue()"]
+    runs = ["H_C17_table(%d,%d)" % (r, sig) for r in range(15)] + ["H_C17_arbitrary(%d)" % (24 if q else 28), "H_C17_catalogue()"]
     return [dict(name="errors", pkg=".", harness=["harness/root/c17.go"], runs=runs, solver="z3",
                  validate_runs=["H_C17_table(4,4)", "H_C17_table(5,4)", "H_C17_arbitrary(12)", "H_C17_catalogue()"],
                  covers={"H_C17_table": ["numeric", "non-numeric"], "H_C17_arbitrary": ["no-row"]})]
@@ -110,7 +112,7 @@ def _c01(tier, seed):
         for idx in _sample(seed, N_STRUCTS, 100):
             for pat in (0, 1, 2, 3):
                 runs.append("H_C01_rt(%d,%d,1,0)" % (idx, pat))
-        kern = ["H_string(0,9,1)", "H_string(250,258,1)", "H_popmessage_arbitrary(10)", "H_string(65534,65537,0)", "H_string_too_large(0)", "H_string_too_large(1)"]
+        kern = ["H_string(0,9,1)", "H_string(250,258,1)", "H_string_last(0,9)", "H_string_last(250,261)", "H_popmessage_arbitrary(10)", "H_string(65534,65537,0)", "H_string_too_large(0)", "H_string_too_large(1)"]
     else:
         for idx in range(N_STRUCTS):
             for pat in range(0, 64):
@@ -118,7 +120,7 @@ def _c01(tier, seed):
             for variant in (1, 2):
                 runs.append("H_C01_rt(%d,1,2,%d)" % (idx, variant))
                 runs.append("H_C01_rt(%d,0,2,%d)" % (idx, variant))
-        kern = ["H_string(%d,%d,1)" % (a, a + 7) for a in range(0, 272, 8)] + ["H_popmessage_arbitrary(16)", "H_string(65534,65537,0)", "H_string(16777212,16777215,0)", "H_string_too_large(0)", "H_string_too_large(1)", "H_string_too_large(5)"]
+        kern = ["H_string(%d,%d,1)" % (a, a + 7) for a in range(0, 272, 8)] + ["H_string_last(%d,%d)" % (a, a + 15) for a in range(0, 288, 16)] + ["H_popmessage_arbitrary(16)", "H_string(65534,65537,0)", "H_string(16777212,16777215,0)", "H_string_too_large(0)", "H_string_too_large(1)", "H_string_too_large(5)"]
     return [
         dict(name="codec", pkg="telegram", harness=TL_HARNESS, overlay=TL_OVERLAY, native_overlay=TL_OVERLAY, runs=runs, solver="z3", walllimit=120, timeout=3000,
              validate_runs=["H_C01_class(1,0,3,1,0)", "H_C01_class(2,1,0,1,0)", "H_C01_class(2,20,0,1,0)", "H_C01_rt(%d,1,1,0)" % (seed % 1000), "H_C01_enum(3)"]),
@@ -151,7 +153,7 @@ def _c02(tier, seed):
         for idx in _sample(seed + 1, N_STRUCTS, 120):
             for pat in (0, 1, 2, 3):
                 runs.append("H_C02_wire(%d,%d,1,0)" % (idx, pat))
-        kern = ["H_string(0,9,1)", "H_string(250,258,1)", "H_string(65534,65537,0)", "H_string_too_large(0)", "H_string_too_large(1)"]
+        kern = ["H_string(0,9,1)", "H_string(250,258,1)", "H_string_last(250,261)", "H_string(65534,65537,0)", "H_string_too_large(0)", "H_string_too_large(1)"]
     else:
         for idx in range(N_STRUCTS):
             for pat in range(0, 64):
@@ -207,8 +209,8 @@ PROPS = {
     ),
     "C17": dict(
         jobs=_c17,
-        bounds={"quick": "each of the 15 table rows with every parameter string of length 0..4 (all bytes symbolic: digits, signs, non-digits, '%'); every error text of length 0..12 with every 32-bit code; all catalogue entries (ground)",
-                "thorough": "parameter strings 0..7; texts 0..20"},
+        bounds={"quick": "each of the 15 table rows with every parameter string of length 0..4 (all bytes symbolic: digits, signs, non-digits, '%'); every error text of length 0..24 with every 32-bit code; all catalogue entries (ground)",
+                "thorough": "parameter strings 0..7; texts 0..28"},
         outside="longer texts / parameters (incl. integers overflowing int); formatting of descriptions that take a parameter (fmt is stubbed); delivery to the caller and PHONE_MIGRATE handling (needs the request loop; see C09/C16 notes)",
         assumptions=["fmt.Sprintf/Errorf and pkg/errors are opaque total functions"],
     ),
